@@ -20,15 +20,17 @@ def pipe(name, runs_q, runs_t, **cfg):
 LT = 'seeded search over event/reply interleavings on the real scheduler+farm with scripted workers; oracle = ground truth of observed releases, hand-outs and replies plus the reference evaluator; sampling, not proof'
 LN = 'trusted: the simulator kernel (sim/), the reference evaluator (worlds/aegen.Ref), scripted workers as a model of real worker processes; db.post backend not exercised'
 MIX_DEFAULT = dict(run=6, rerun_executing=2, add_target=1, run_all=1, run_empty=0)
+MIX_UPDATE = dict(run=5, rerun_executing=1, add_target=1, run_all=1, run_empty=0, update=3)
 
 PROPS = {
     'C01': dict(
         level='exploration', rule=PIPE_RULE, components=PIPE_COMPONENTS, level_text=LT, level_note=LN,
         probes=['batch_nonempty', 'reply_with_new_values', 'reply_failure', 'target_added'],
         batches=[
-            pipe('fault-free', 1600, 60000, faults=False, events=14, max_total=8, max_pkgs=4,
+            pipe('fault-free', 1200, 60000, faults=False, events=14, max_total=8, max_pkgs=4,
                  mix=dict(run=6, rerun_executing=1, add_target=1, run_all=2, run_empty=0)),
-            pipe('faults', 900, 40000, faults=True, net=True, events=14, max_total=8, max_pkgs=4),
+            pipe('faults', 700, 40000, faults=True, net=True, events=14, max_total=8, max_pkgs=4),
+            pipe('reload-history', 500, 20000, faults=False, events=12, max_total=8, max_pkgs=4, mix=MIX_UPDATE, record_on_run=True),
         ],
         wall=dict(quick=100, thorough=1500),
     ),
@@ -36,8 +38,9 @@ PROPS = {
         level='exploration', rule=PIPE_RULE, components=PIPE_COMPONENTS, level_text=LT, level_note=LN,
         probes=['reply_with_new_values', 'quiesced'],
         batches=[
-            pipe('fault-free', 1600, 60000, faults=False, events=10, outcome=dict(success=8, failure=1, invalid=1)),
-            pipe('faults', 900, 40000, faults=True, net=True, events=10),
+            pipe('fault-free', 1200, 60000, faults=False, events=10, outcome=dict(success=8, failure=1, invalid=1)),
+            pipe('faults', 700, 40000, faults=True, net=True, events=10),
+            pipe('reload-history', 500, 20000, faults=False, events=12, mix=MIX_UPDATE, record_on_run=True),
         ],
         wall=dict(quick=100, thorough=1500),
     ),
@@ -45,10 +48,11 @@ PROPS = {
         level='exploration', rule=PIPE_RULE, components=PIPE_COMPONENTS, level_text=LT, level_note=LN,
         probes=['quiesced', 'request_with_no_targets', 'reply_failure', 'reply_invalid', 'failure_withdrew_dependent'],
         batches=[
-            pipe('fault-free', 1600, 60000, faults=False, events=8, outcome=dict(success=3, failure=2, invalid=2),
+            pipe('fault-free', 1200, 60000, faults=False, events=8, outcome=dict(success=3, failure=2, invalid=2),
                  mix=dict(run=6, rerun_executing=1, add_target=1, run_all=1, run_empty=2)),
-            pipe('faults', 900, 40000, faults=True, net=True, events=8, outcome=dict(success=3, failure=2, invalid=2),
+            pipe('faults', 700, 40000, faults=True, net=True, events=8, outcome=dict(success=3, failure=2, invalid=2),
                  mix=dict(run=6, rerun_executing=1, add_target=1, run_all=1, run_empty=2)),
+            pipe('reload-history', 500, 20000, faults=False, events=10, outcome=dict(success=3, failure=2, invalid=2), mix=MIX_UPDATE, record_on_run=True),
         ],
         wall=dict(quick=100, thorough=1500),
     ),
@@ -56,8 +60,9 @@ PROPS = {
         level='exploration', rule=PIPE_RULE, components=PIPE_COMPONENTS, level_text=LT, level_note=LN,
         probes=['reply_failure', 'reply_invalid', 'failure_withdrew_dependent'],
         batches=[
-            pipe('fault-free', 1600, 60000, faults=False, events=14, outcome=dict(success=3, failure=3, invalid=3)),
-            pipe('faults', 900, 40000, faults=True, net=True, events=14, outcome=dict(success=3, failure=3, invalid=3)),
+            pipe('fault-free', 1200, 60000, faults=False, events=14, outcome=dict(success=3, failure=3, invalid=3)),
+            pipe('faults', 700, 40000, faults=True, net=True, events=14, outcome=dict(success=3, failure=3, invalid=3)),
+            pipe('reload-history', 500, 20000, faults=False, events=12, outcome=dict(success=3, failure=3, invalid=3), mix=MIX_UPDATE, record_on_run=True),
         ],
         wall=dict(quick=100, thorough=1500),
     ),
@@ -65,8 +70,9 @@ PROPS = {
         level='exploration', rule=PIPE_RULE, components=PIPE_COMPONENTS, level_text=LT, level_note=LN,
         probes=['handed'],
         batches=[
-            pipe('fault-free', 1200, 50000, faults=False, workers=[0, 1, 2, 3, 5, 8]),
-            pipe('faults', 1300, 50000, faults=True, net=True, workers=[0, 1, 2, 3, 5, 8]),
+            pipe('fault-free', 1000, 50000, faults=False, workers=[0, 1, 2, 3, 5, 8]),
+            pipe('faults', 800, 50000, faults=True, net=True, workers=[0, 1, 2, 3, 5, 8]),
+            pipe('reload-history', 600, 25000, faults=True, net=True, events=12, workers=[1, 2, 3, 5, 8], mix=MIX_UPDATE, record_on_run=True),
         ],
         wall=dict(quick=100, thorough=1500),
     ),
@@ -75,12 +81,44 @@ PROPS = {
         level_text=LT, level_note=LN,
         probes=['rerequest_while_doing', 'reply_with_new_values', 'handed'],
         batches=[
-            pipe('fault-free', 1500, 60000, faults=False),
-            pipe('faults', 1000, 40000, faults=True, net=True),
+            pipe('fault-free', 1200, 60000, faults=False),
+            pipe('faults', 700, 40000, faults=True, net=True),
+            pipe('reload-history', 500, 20000, faults=False, events=12, mix=MIX_UPDATE, record_on_run=True),
         ],
         wall=dict(quick=100, thorough=1200),
     ),
 }
+
+PROPS['C09'] = dict(
+    level='exploration', components=PIPE_COMPONENTS, level_note=LN + '; input-heavy property: given the program the graph is almost a pure function; the simulator owns '
+    'hash-seed dependent iteration orders (4 PYTHONHASHSEED classes), package discovery order and the history of software updates and (re)loads',
+    rule='one run = one generated engine (<=10 algorithms, 1-5 packages, value/state-vector/algorithm level inputs, diamonds, feedback) and, in the reload batches, '
+         'a history of software updates (version bumps, inputs added/removed, algorithms added) each followed by a real FSM reload; the graph built by the real '
+         'dag.Construct at every (re)load is compared with the reference evaluator; non-trivial = >=2 releases, >=1 reply, >=1 reordering; distinct = event-log digest',
+    level_text='every task graph built at boot and at each reload in seeded histories is compared node-, edge-, ancestry-, parent- and feedback-wise with an independent reference evaluator; sampling over programs and histories, not proof',
+    probes=['graph_checked', 'graph_with_feedback', 'graph_with_join', 'rebuild'],
+    batches=[
+        pipe('boot-graphs', 1500, 60000, faults=False, events=3, max_total=10, max_pkgs=5, workers=2),
+        pipe('reload-history', 900, 40000, faults=False, events=10, max_total=8, max_pkgs=4, mix=MIX_UPDATE, record_on_run=True),
+    ],
+    wall=dict(quick=100, thorough=1500),
+)
+PROPS['C15'] = dict(
+    level='exploration', components=PIPE_COMPONENTS, level_note=LN + '; the first sentence (total order of versions) is a pure function and is decided by exhaustive enumeration '
+    'inside the same command, not by simulation (reported under coverage.version_order)',
+    rule=PIPE_RULE + '; plus histories of software updates (version bumps of algorithm / state vector / value, new algorithms) with versions persisted as units run, each followed by a real FSM reload',
+    level_text='at every schedule build (boot and each reload) in seeded run/bump/reload histories, the set of scheduled algorithms and their targets is compared with the reference computed from the declared versions and db.versions(); sampling, not proof',
+    probes=['rebuild', 'load_with_new_versions', 'load_with_some_new_some_old', 'version_recorded_by_run'],
+    batches=[
+        pipe('boot-versions', 1000, 40000, faults=False, events=4, pre_versions=2),
+        pipe('reload-history', 1400, 60000, faults=False, events=12, mix=MIX_UPDATE, record_on_run=True, graph_edits=False),
+        pipe('reload-history-faults', 600, 30000, faults=True, net=True, events=12, mix=MIX_UPDATE, record_on_run=True),
+    ],
+    wall=dict(quick=100, thorough=1500),
+)
+
+# properties whose checks are finished, validated on the unchanged tree and listed in MANIFEST.json
+CLAIMED = ['C01', 'C02', 'C03', 'C04', 'C05', 'C09', 'C11', 'C15']
 
 NOT_APPLICABLE = {
     'C16': 'pure function of program text (compliance rules): no schedule, clock, I/O fault, crash point or second party for a simulator to own; generating packages and rule violations would be input generation, not simulation (DESIGN.md section 6)',
@@ -96,9 +134,15 @@ def _load_extra():
 
     here = os.path.dirname(os.path.abspath(__file__))
     for path in sorted(glob.glob(os.path.join(here, 'p_*.py'))):
-        spec = importlib.util.spec_from_file_location('checks_' + os.path.basename(path)[:-3], path)
-        mod = importlib.util.module_from_spec(spec)
-        spec.loader.exec_module(mod)
+        try:
+            spec = importlib.util.spec_from_file_location('checks_' + os.path.basename(path)[:-3], path)
+            mod = importlib.util.module_from_spec(spec)
+            spec.loader.exec_module(mod)
+        except Exception as e:  # a world under construction must not take the other checks down
+            import sys
+
+            print(f'registry: skipped {path}: {e!r}', file=sys.stderr)
+            continue
         PROPS.update(getattr(mod, 'PROPS', {}))
         NOT_APPLICABLE.update(getattr(mod, 'NOT_APPLICABLE', {}))
 
